@@ -404,7 +404,7 @@ var boundary = map[string]string{
 	"filter:huge_number": `{"$gte":{"balance[USD]":1e400}}`, "filter:id_huge": `{"$match":{"id":99999999999999999999999}}`, "filter:id_neg": `{"$match":{"id":-1}}`,
 	"filter:empty": `{}`, "filter:match_empty": `{"$match":{}}`,
 	// enumerations
-	"enum:garbage": "garbage", "enum:sql": "id;drop", "enum:long": strings.Repeat("x", 5000),
+	"enum:garbage": "garbage", "enum:sql": "id;drop", "enum:long": strings.Repeat("x", 300),
 	// raw bodies
 	"raw:empty": "", "raw:not_json": "{not json", "raw:truncated": `{"postings":[{"source":"wor`, "raw:array": "[1,2,3]", "raw:string": `"x"`,
 	"raw:number": "42", "raw:null": "null", "raw:utf8_bad": "{\"a\":\"\xff\xfe\"}", "raw:deep": strings.Repeat("[", 20000), "raw:trailing": `{} {}`,
@@ -669,6 +669,16 @@ func RunShape(base *Env, baseHash string, baseSnap Snapshot, c ShapeCase) (out S
 				_, a := m["errorCode"].(string)
 				_, b := m["errorMessage"].(string)
 				out.ErrShape = a && b
+				// a bulk answers 400 with one result per element, the failing ones carrying their own error code
+				if data, ok := m["data"].([]any); ok && !out.ErrShape {
+					for _, x := range data {
+						if xm, ok := x.(map[string]any); ok {
+							if _, has := xm["errorCode"].(string); has {
+								out.ErrShape = true
+							}
+						}
+					}
+				}
 			}
 		}
 	}
